@@ -35,7 +35,16 @@ RULE = ("primitives: every primitive class on boundary pools (length mod 8 in 0.
         "them; unpopulated arguments filled from other examples), a truthy and a falsy sibling (False, 0, '', b'', "
         "[], enum member 0), alone and with the other arguments, under every version: where the truthy sibling's "
         "attribute survives decode(encode(x)) the falsy one's must too (falsy_combinations = distinct (class, field, "
-        "falsy value, version) that encoded and decoded).  Schema layer "
+        "falsy value, version) that encoded and decoded).  Field discovery: every constructor argument no example "
+        "populates is probed with a typed candidate pool (raw values, a member of every enumeration class, an instance "
+        "of every primitive subclass and every structure class, lists of them, ordered by name resemblance); a value "
+        "the constructor keeps that is encoded and decoded without complaint and comes back under no version is "
+        "c01:field-never-roundtrips (excluded: `tag`; arguments for which no candidate is both accepted and encodable "
+        "are listed in fields_unprobed).  Nesting: every structure-valued or list-of-structure argument of every class "
+        "receives the rich instances of the nested class (most populated example, remaining arguments filled in; truthy "
+        "and falsy variant); where the container delegates to the nested class's writer (its encoding under some "
+        "version is a substring of the container's) what comes back inside the container under v must lose nothing the "
+        "nested class's own codec keeps under v.  Schema layer "
         "(M3): for every class of the Lean schema table, real encodings and their child-level neighbours (child "
         "dropped / duplicated / moved / re-typed within a layout-compatible type / a foreign primitive child inserted) "
         "are given to the class's reader and to Lean decodeS: same accept/reject and same re-encode stability.  "
